@@ -9,6 +9,55 @@ B09_ONLY_RESERVED2 = {"DO", "PI", "SQ"}
 KEYWORD_PREFIXES = None
 
 
+# reserved words of Color / Extended / Super Extended BASIC (the interpreter tokenises them wherever they occur, with or without
+# surrounding blanks) - used to read crunched spellings such as IFJOYSTK(0)=1THENPRINT"T" the way Color BASIC does
+DECB_WORDS = ("FOR GO REM ELSE IF DATA PRINT ON INPUT END NEXT DIM READ RUN RESTORE RETURN STOP POKE CONT LIST CLEAR NEW CLOAD CSAVE OPEN CLOSE LLIST SET RESET CLS MOTOR SOUND AUDIO EXEC SKIPF "
+              "TAB TO SUB THEN NOT STEP OFF AND OR SGN INT ABS USR RND SIN PEEK LEN STR$ VAL ASC CHR$ EOF JOYSTK LEFT$ RIGHT$ MID$ POINT INKEY$ MEM "
+              "DEL EDIT TRON TROFF DEF LET LINE PCLS PSET PRESET SCREEN PCLEAR COLOR CIRCLE PAINT GET PUT DRAW PCOPY PMODE PLAY DLOAD RENUM FN USING ATN COS TAN EXP FIX LOG POS SQR HEX$ VARPTR INSTR "
+              "TIMER PPOINT STRING$ WIDTH PALETTE HSCREEN LPOKE HCLS HCOLOR HPAINT HCIRCLE HLINE HGET HPUT HBUFF HPRINT ERR BRK LOCATE HSTAT HSET HRESET HDRAW CMP RGB ATTR LPEEK BUTTON HPOINT "
+              "ERNO ERLIN GOTO GOSUB").split()
+_WORDS_LONGEST_FIRST = sorted(set(DECB_WORDS), key=lambda w: (-len(w), w))
+
+
+def decb_split(line):
+    """Insert blanks around every reserved word outside string literals / comments / DATA (what the Color BASIC cruncher sees)."""
+    out = []
+    i, n = 0, len(line)
+    while i < n:
+        c = line[i]
+        if c == '"':
+            j = line.find('"', i + 1)
+            j = n - 1 if j < 0 else j
+            out.append(line[i : j + 1])
+            i = j + 1
+            continue
+        if c == "'":
+            out.append(line[i:])
+            break
+        if c.isalpha():
+            for w in _WORDS_LONGEST_FIRST:
+                if line.startswith(w, i):
+                    break
+            else:
+                w = None
+            if w == "REM":
+                out.append(" " + line[i:])
+                break
+            if w == "DATA":
+                j = line.find(":", i)
+                j = n if j < 0 else j
+                out.append(" " + line[i:j])
+                i = j
+                continue
+            if w:
+                out.append(" " + w + " ")
+                i += len(w)
+                continue
+        out.append(c)
+        i += 1
+    return re.sub(r" +", " ", "".join(out))
+
+
 def strip_comment(line):
     out = []
     q = False
@@ -32,7 +81,7 @@ def statements_of(text):
         m = re.match(r"\s*(\d+)\s*(.*)$", raw)
         if not m:
             continue
-        body = strip_comment(m.group(2))
+        body = strip_comment(decb_split(m.group(2)))
         stmts = []
         cur = []
         q = False
